@@ -110,7 +110,7 @@ int cmd_pin(FILE *job, FILE *out) {
         free(t);
         free(line);
     }
-    run_opts o = {.chunk = 64, .timeout_ms = 10000};
+    run_opts o = {.chunk = 64, .timeout_ms = 10000, .confirm_hang = true};
     run_cases(c.n, run_one, &c, o, out);
     return 0;
 }
